@@ -4,8 +4,10 @@ import json, os
 V = os.path.normpath(os.path.join(os.path.dirname(os.path.abspath(__file__)), ".."))
 props = [json.loads(l) for l in open(os.path.join(V, "properties.jsonl"))]
 PY = "/venv/bin/python harness/check.py"
-TB = ("trusted base: TLC; the projection harness/project.py; the drivers' relabelling code (every derivation they claim is "
-      "re-checked by the specification); bliss/igraph as an assumed environment; bounded design instances (n<=3 quick, n<=4 thorough)")
+TB = ("trusted base: TLC; the projection harness/project.py and the recorder harness/record.py (what was called with what and returned what); the "
+      "drivers' claims are re-checked by the specification (relabellings, same-molecule texts, respellings, witnesses, automorphisms); bliss/igraph is an "
+      "assumed environment (contract in spec/Bliss.tla); design instances are bounded (3 atoms quick, 4 thorough; small text / thread / size instances); "
+      "float(), int(), str.splitlines() and the ANTLR runtime are outside the model")
 CLAIMED = {
  "C01": ("TLC bounded model of the whole pipeline (MC_Tucan) + TLC trace validation of recorded sessions (Trace_Tucan): string registry per verified-same-molecule class",
          "All labelled molecules up to 3 (thorough: 4) atoms x relabelling generators are model-checked on the specification's own algorithms; the same inputs (spec->code) and seeded random / symmetric / corpus molecules with relabelled, reordered, re-oriented descriptions (code->spec) are run through the real library and every event is validated by TLC; a string that differs inside a class of verified derivations is a violation.", "§4 C01"),
@@ -62,7 +64,10 @@ m = {"version": 1,
      "engines": [{"name": "tlc-tucan", "path": "/verif/harness/check.py", "serves_properties": [c["property_id"] for c in checks],
                   "kind_free_text": "TLA+ specification (spec/*.tla) checked by TLC: bounded models + validation of traces recorded from the real library + replay of TLC-enumerated inputs into it"}],
      "checks": checks,
-     "notes": "See DESIGN.md. known_findings.json lists the repaired defects (fix: commits in /repo).",
+     "notes": ("See DESIGN.md (section 8 = as built). known_findings.json: seven repaired defects (fix: commits in /repo) and one open finding KF1 "
+               "(numbers of more than 4300 digits in TUCAN strings; printed as KNOWN-FINDING by the C10 check). setup_cmd = SANY on all modules + a "
+               "binding self-test on committed fixtures (no access to /repo). seeded/ holds 98 confirmed breaking changes with the observed check results, "
+               "seeded-benign/ six property-preserving refactors that no check may report."),
      "not_applicable": [{"property_id": p["id"], "reason": "check under construction in this build phase (specification module and harness not committed yet); to be claimed"}
                         for p in props if p["id"] not in CLAIMED]}
 json.dump(m, open(os.path.join(V, "MANIFEST.json"), "w"), indent=1)
